@@ -63,6 +63,18 @@ def runI (E : Ising) (R : Region) : Sweep → Nat → Slots → Sweep
   | s, p, none :: t => runI E R s (p + 1) t
   | s, p, some o :: t => runI E R (stepI E R s p o) (p + 1) t
 
+/-- does the sweep count the operator in the segment abstraction (as a rotatable operator of the open
+segment, or as an enclosed operator)? -/
+def touched (E : Ising) (R : Region) (s : Sweep) (o : Op) : Bool :=
+  o.vars.any R.subvars.contains &&
+    ((((boundary E s.st s.mask).map (·.1)).idxOf? o.bond).isSome || o.vars.all (getB s.mask))
+
+/-- product of the matrix elements of the operators the abstraction does NOT count -/
+def restW (E : Ising) (R : Region) : Sweep → Nat → Slots → Rat
+  | _, _, [] => 1
+  | s, p, none :: t => restW E R s (p + 1) t
+  | s, p, some o :: t => (if touched E R s o then 1 else E.opW o) * restW E R (stepI E R s p o) (p + 1) t
+
 theorem commit_broke (E : Ising) (s : Sweep) : (s.commit E).broke = s.broke := rfl
 
 /-- `broke` is sticky -/
@@ -368,7 +380,8 @@ theorem step_rebond {E : Ising} {R : Region} {sb sa : Sweep} {p : Nat} {o o' : O
     (hin : inputsMatch sb.st o = true) (hb : OnBoundary E sb.st sb.mask o.bond)
     (hrb : Rebond E sb.st sb.mask o o') :
     Rel (stepI E R sb p o) (stepI E R sa p o') ∧ (stepI E R sb p o).st = writeVars sb.st o.vars o.outs ∧
-      (stepI E R sb p o).mask = sb.mask ∧ (stepI E R sb p o).tog = sb.tog := by
+      (stepI E R sb p o).mask = sb.mask ∧ (stepI E R sb p o).tog = sb.tog ∧
+      touched E R sb o = true ∧ touched E R sa o' = true := by
   -- the side before the move
   obtain ⟨⟨b0, wb0, wa0⟩, hx, hxb⟩ := hb
   simp only at hxb
@@ -394,11 +407,13 @@ theorem step_rebond {E : Ising} {R : Region} {sb sa : Sweep} {p : Nat} {o o' : O
     rw [hr.st, hr.mask, boundary_xor_bonds E _ _ hr.len]
   obtain ⟨i', hi'⟩ := idxOf?_some_of_mem (l := (boundary E sa.st sa.mask).map (·.1)) (b := o'.bond)
     (by rw [hbonds, hb1]; exact List.mem_map.2 ⟨_, hx1, rfl⟩)
+  have ht : touched E R sb o = true := by simp [touched, hvis, hi]
+  have ht' : touched E R sa o' = true := by simp [touched, hvis', hi']
   rw [stepI_rot E R sb p o i hvis hi, stepI_rot E R sa p o' i' hvis' hi']
   have hwm : writeVars sb.st o.vars o.outs = sb.st := by
     rw [hrb.oldDiag.2]
     exact writeVars_matched sb.st o.vars o.ins (by simpa [inputsMatch] using hin)
-  refine ⟨⟨hr.st, hr.mask, hr.tog, hr.len, hr.segs, hr.inner, ?_, hr.asg⟩, hwm.symm, rfl, rfl⟩
+  refine ⟨⟨hr.st, hr.mask, hr.tog, hr.len, hr.segs, hr.inner, ?_, hr.asg⟩, hwm.symm, rfl, rfl, ht, ht'⟩
   show (sa.cur ++ [i']).length = (sb.cur ++ [i]).length
   simp [hr.cur]
 
@@ -421,7 +436,8 @@ theorem addInner_rel {E : Ising} {sb sa : Sweep} {o o' : Op} (hr : Rel sb sa) (h
 
 /-- one operator that is not on a boundary bond -/
 theorem step_flip {E : Ising} {R : Region} {sb sa : Sweep} {p : Nat} {o o' : Op} {isTog : Bool}
-    {mask2 : List Bool} (hr : Rel sb sa) (hcovT : isTog = true → ∀ v ∈ o.vars, v ∈ R.subvars)
+    {mask2 : List Bool} (hr : Rel sb sa) (hcov : ∀ v, getB sb.mask v = true → v ∈ R.subvars)
+    (hcovT : isTog = true → ∀ v ∈ o.vars, v ∈ R.subvars)
     (hok : OpOK E o) (hin : inputsMatch sb.st o = true) (hnb : ¬ OnBoundary E sb.st sb.mask o.bond)
     (hT : isTog = (sb.tog.head? == some p))
     (c1 : isTog = true → o.const = true ∧ ∃ v, o.vars = [v] ∧ mask2 = toggleAt sb.mask v)
@@ -430,7 +446,8 @@ theorem step_flip {E : Ising} {R : Region} {sb sa : Sweep} {p : Nat} {o o' : Op}
     (hnd : o.vars.Nodup) (hli : o.ins.length = o.vars.length) (hlo : o.outs.length = o.vars.length)
     (ho' : o' = xorOp o sb.mask mask2 isTog) :
     Rel (stepI E R sb p o) (stepI E R sa p o') ∧ (stepI E R sb p o).st = writeVars sb.st o.vars o.outs ∧
-      (stepI E R sb p o).mask = mask2 ∧ (stepI E R sb p o).tog = (if isTog then sb.tog.tail else sb.tog) := by
+      (stepI E R sb p o).mask = mask2 ∧ (stepI E R sb p o).tog = (if isTog then sb.tog.tail else sb.tog) ∧
+      touched E R sa o' = touched E R sb o ∧ (touched E R sb o = false → E.opW o' = E.opW o) := by
   have hvars : o'.vars = o.vars := by rw [ho']; rfl
   have hbond : o'.bond = o.bond := by rw [ho']; rfl
   have hins : o'.ins = xorL o.ins (o.vars.map (getB sb.mask)) := by rw [ho']; rfl
@@ -474,8 +491,19 @@ theorem step_flip {E : Ising} {R : Region} {sb sa : Sweep} {p : Nat} {o o' : Op}
         rw [hvis] at this; cases this
     have hm : mask2 = sb.mask := (c2 hnt).1
     have hvis' : o'.vars.any R.subvars.contains = false := by rw [hvars]; exact hvis
+    have ht : touched E R sb o = false := by simp [touched, hvis]
+    have ht' : touched E R sa o' = false := by simp [touched, hvis']
+    have hsame : o' = o := by
+      rw [ho', hnt, hm]
+      refine xorOp_outside o sb.mask hli hlo (fun v hv => ?_)
+      cases hg : getB sb.mask v with
+      | false => rfl
+      | true =>
+        have := (visited_iff R o).2 ⟨v, hv, hcov v hg⟩
+        rw [hvis] at this; cases this
     rw [stepI_foreign E R sb p o hvis, stepI_foreign E R sa p o' hvis']
-    refine ⟨⟨?_, hr.mask, hr.tog, ?_, hr.segs, hr.inner, hr.cur, hr.asg⟩, rfl, hm.symm, by rw [hnt]; rfl⟩
+    refine ⟨⟨?_, hr.mask, hr.tog, ?_, hr.segs, hr.inner, hr.cur, hr.asg⟩, rfl, hm.symm, by rw [hnt]; rfl,
+      by rw [ht, ht'], fun _ => by rw [hsame]⟩
     · show writeVars sa.st o'.vars o'.outs = xorL (writeVars sb.st o.vars o.outs) sb.mask
       rw [hr.st, hW, hm]
     · show (writeVars sb.st o.vars o.outs).length = sb.mask.length
@@ -486,6 +514,23 @@ theorem step_flip {E : Ising} {R : Region} {sb sa : Sweep} {p : Nat} {o o' : Op}
       List.idxOf?_eq_none_iff.2 (fun hm => hnb ((onBoundary_iff_mem _ _ _ _).2 hm))
     have hi' : ((boundary E sa.st sa.mask).map (·.1)).idxOf? o'.bond = none := by
       rw [hbonds, hbond]; exact hi
+    have hcond : o'.vars.all (getB sa.mask) = o.vars.all (getB sb.mask) := by rw [hvars, hr.mask]
+    have ht : touched E R sb o = o.vars.all (getB sb.mask) := by simp [touched, hvis, hi]
+    have ht' : touched E R sa o' = o.vars.all (getB sb.mask) := by simp [touched, hvis', hi', hcond]
+    have hw : touched E R sb o = false → E.opW o' = E.opW o := by
+      intro hf
+      rw [ht] at hf
+      cases hc : isTog with
+      | false =>
+        obtain ⟨hm, hio⟩ := c2 hc
+        rcases hio with hall | hnone
+        · have : o.vars.all (getB sb.mask) = true := List.all_eq_true.2 hall
+          rw [hf] at this; cases this
+        · rw [ho', hc, hm, xorOp_outside o sb.mask hli hlo hnone]
+      | true =>
+        obtain ⟨hconst, _⟩ := c1 hc
+        obtain ⟨t1, t2⟩ := hok.2.2 hconst
+        simp only [Ising.opW, hbond, transverse_w E o.bond t1 t2]
     rw [stepI_other E R sb p o hvis hi, stepI_other E R sa p o' hvis' hi', hTa, ← hT]
     -- the commit condition is the same on both sides
     have hc : (!o'.tagDiag || isTog) = (!o.tagDiag || isTog) := by
@@ -547,7 +592,7 @@ theorem step_flip {E : Ising} {R : Region} {sb sa : Sweep} {p : Nat} {o o' : Op}
             exact inputsMatch_xor sb.st sb.mask hr.len o.vars o.ins hli hmatch
           rw [← hW, ← hio]
           exact (writeVars_matched _ _ _ him).symm
-    refine ⟨⟨?_, ?_, ?_, ?_, hR2.segs, hR2.inner, hR2.cur, hR2.asg⟩, ?_, ?_, ?_⟩
+    refine ⟨⟨?_, ?_, ?_, ?_, hR2.segs, hR2.inner, hR2.cur, hR2.asg⟩, ?_, ?_, ?_, by rw [ht, ht'], hw⟩
     · show (if (!o'.tagDiag) = true then writeVars s2a.st o'.vars o'.outs else s2a.st) =
         xorL (if (!o.tagDiag) = true then writeVars s2b.st o.vars o.outs else s2b.st)
           (if isTog = true then toggleAt s2b.mask (o.vars.headD 0) else s2b.mask)
@@ -572,17 +617,21 @@ theorem lockstep {E : Ising} {R : Region} {p st mask tog s s' m t} (h : Steps E 
     ∀ (sb sa : Sweep), Rel sb sa → sb.st = st → sb.mask = mask → sb.tog = tog →
       (∀ v, getB mask v = true → v ∈ R.subvars) → (∀ x ∈ tog, x ∈ R.toggles) →
       OpsOK E s → CovFrom R p s →
-      Rel (runI E R sb p s) (runI E R sa p s') := by
+      Rel (runI E R sb p s) (runI E R sa p s') ∧ restW E R sb p s = restW E R sa p s' := by
   induction h with
-  | nil p st mask tog => intro sb sa hr _ _ _ _ _ _ _; exact hr
+  | nil p st mask tog => intro sb sa hr _ _ _ _ _ _ _; exact ⟨hr, rfl⟩
   | skip p st mask tog s s' m t _ ih =>
     intro sb sa hr e1 e2 e3 hcov htog hok hcf
     exact ih sb sa hr e1 e2 e3 hcov htog hok.tail hcf.tail
   | rebond p st mask tog o o' s s' m t hin hb hrb _ ih =>
     intro sb sa hr e1 e2 e3 hcov htog hok hcf
     subst e1 e2 e3
-    obtain ⟨hr', h1, h2, h3⟩ := step_rebond (R := R) (p := p) hr hcov (hok o (by simp)) hin hb hrb
-    exact ih _ _ hr' h1 h2 h3 hcov htog hok.tail hcf.tail
+    obtain ⟨hr', h1, h2, h3, t1, t2⟩ := step_rebond (R := R) (p := p) hr hcov (hok o (by simp)) hin hb hrb
+    obtain ⟨i1, i2⟩ := ih _ _ hr' h1 h2 h3 hcov htog hok.tail hcf.tail
+    refine ⟨i1, ?_⟩
+    show (if touched E R sb o = true then 1 else E.opW o) * restW E R (stepI E R sb p o) (p + 1) s =
+      (if touched E R sa o' = true then 1 else E.opW o') * restW E R (stepI E R sa p o') (p + 1) s'
+    rw [t1, t2, i2]; rfl
   | flip p st mask tog o o' s s' m t isTog mask2 hin hnb hT c1 c2 hnd hli hlo ho' _ _ ih =>
     intro sb sa hr e1 e2 e3 hcov htog hok hcf
     subst e1 e2 e3
@@ -593,10 +642,10 @@ theorem lockstep {E : Ising} {R : Region} {p st mask tog s s' m t} (h : Steps E 
         have : sb.tog.head? = some p := by simpa using hT.symm
         exact htog p (List.mem_of_head? this)
       exact hcf 0 o rfl (by simpa using hp) v hv
-    obtain ⟨hr', h1, h2, h3⟩ :=
-      step_flip (R := R) (p := p) hr hcovT (hok o (by simp)) hin hnb hT c1 c2 hnd hli hlo ho'
-    refine ih _ _ hr' h1 h2 h3 ?_ ?_ hok.tail hcf.tail
-    · intro v hv
+    obtain ⟨hr', h1, h2, h3, t1, t2⟩ :=
+      step_flip (R := R) (p := p) hr hcov hcovT (hok o (by simp)) hin hnb hT c1 c2 hnd hli hlo ho'
+    have hcov2 : ∀ v, getB mask2 v = true → v ∈ R.subvars := by
+      intro v hv
       cases hc : isTog with
       | false => rw [(c2 hc).1] at hv; exact hcov v hv
       | true =>
@@ -604,10 +653,19 @@ theorem lockstep {E : Ising} {R : Region} {p st mask tog s s' m t} (h : Steps E 
         by_cases e : v = w
         · subst e; exact hcovT hc v (by rw [hw]; simp)
         · rw [hm, getB_toggleAt_ne _ _ _ e] at hv; exact hcov v hv
-    · intro x hx
+    have htog2 : ∀ x ∈ (if isTog = true then sb.tog.tail else sb.tog), x ∈ R.toggles := by
+      intro x hx
       cases isTog with
       | false => exact htog x hx
       | true => exact htog x (List.mem_of_mem_tail hx)
+    obtain ⟨i1, i2⟩ := ih _ _ hr' h1 h2 h3 hcov2 htog2 hok.tail hcf.tail
+    refine ⟨i1, ?_⟩
+    show (if touched E R sb o = true then 1 else E.opW o) * restW E R (stepI E R sb p o) (p + 1) s =
+      (if touched E R sa o' = true then 1 else E.opW o') * restW E R (stepI E R sa p o') (p + 1) s'
+    rw [t1, i2]
+    cases htc : touched E R sb o with
+    | true => rfl
+    | false => simp only [Bool.false_eq_true, if_false]; rw [t2 htc]
 
 /-- **the extract-flip lemma**: after an RVB move the segment abstraction read off the new
 configuration is the flipped abstraction of the old one, and the two assignments have the same
@@ -621,7 +679,7 @@ theorem extract_flip {E : Ising} {b a : Config} {R : Region} (hmove : RvbMove E 
   have hrel0 : Rel { st := b.state, mask := R.mask0, tog := R.toggles }
       { st := a.state, mask := R.mask0, tog := R.toggles } :=
     ⟨h1, rfl, rfl, h2, rfl, rfl, rfl, rfl⟩
-  have hrel := lockstep (R := R) h3 _ _ hrel0 rfl rfl rfl hcov.1 (fun _ hx => hx) hok hcov.2
+  have hrel := (lockstep (R := R) h3 _ _ hrel0 rfl rfl rfl hcov.1 (fun _ hx => hx) hok hcov.2).1
   have hc := commit_rel E hrel
   unfold extract
   simp only
@@ -631,6 +689,17 @@ theorem extract_flip {E : Ising} {b a : Config} {R : Region} (hmove : RvbMove E 
   unfold Problem.flip
   simp only
   rw [hc.segs, hc.inner]
+
+/-- the operators the abstraction does not count have the same weights before and after the move -/
+theorem restW_eq {E : Ising} {b a : Config} {R : Region} (hmove : RvbMove E b a R)
+    (hok : OpsOK E b.slots) (hcov : Covered b R) :
+    restW E R { st := b.state, mask := R.mask0, tog := R.toggles } 0 b.slots =
+      restW E R { st := a.state, mask := R.mask0, tog := R.toggles } 0 a.slots := by
+  obtain ⟨h1, h2, h3⟩ := hmove
+  have hrel0 : Rel { st := b.state, mask := R.mask0, tog := R.toggles }
+      { st := a.state, mask := R.mask0, tog := R.toggles } :=
+    ⟨h1, rfl, rfl, h2, rfl, rfl, rfl, rfl⟩
+  exact (lockstep (R := R) h3 _ _ hrel0 rfl rfl rfl hcov.1 (fun _ hx => hx) hok hcov.2).2
 
 /-! ## the corner: an abandoned sweep
 
